@@ -53,8 +53,23 @@ def opReload (l : Line) : Except String String := do
   let r' := r.reload
   pure (s!"same={b01 (r'.store == r.store && r'.storeUp)} c={r'.store.1} i={r'.store.2}\treload")
 
+/-- `udp.served seq=<kinds>`: what a serving UDP frontend answers to each datagram of a sequence — silence for
+runts, empty datagrams and connects without the magic; an error for a bad connection ID or an unknown
+action; the matching response for every well-formed request, wherever it stands in the sequence -/
+def opServed (l : Line) : Except String String := do
+  let ks := (l.get "seq").splitOn ","
+  let ans := ks.map fun k =>
+    if k == "E" || k == "S" || k == "M" then "none"
+    else if k == "G" || k == "U" then "error"
+    else if k == "C" then "connect"
+    else if k == "A" then "announce"
+    else if k == "X" then "scrape"
+    else "?"
+  pure ("answers=" ++ ",".intercalate ans ++ "\tserved")
+
 def handle (l : Line) : Option (Except String String) :=
   match l.op with
+  | "udp.served" => some (opServed l)
   | "grp.stop" => some (opGroup l)
   | "life.http" => some (opHttp l)
   | "life.udp" => some (opUdp l)
